@@ -7,6 +7,8 @@ Case kinds (all plain JSON):
   {"kind": "damage", "env": SPEC, "src": PATTERN, "damage": DAMAGE}
       DAMAGE = ["truncate", k] | ["zero"] | ["dir"] | ["dir_nonempty"] | ["stale"] | ["foreign_name", same_source]
              | ["magic", variant] | ["append", n]
+             | ["other_interp", "minor-1"|"minor+1"|"major+1"]   entry written by a second copy of jinja2/bccache.py that was
+               executed while sys.version_info reported another interpreter version
   {"kind": "hist",   "envs": [SPEC, SPEC], "tpl": {name: PATTERN}, "ops": [OP...], "oracle": "full"|"weak"}
       OP = ["L", env index, name] | ["M", name] | ["C", env index]
   {"kind": "memc",   "envs": [SPEC, SPEC], "tpl": {...}, "ops": [...], "ignore": bool, "timeout": int|None,
@@ -42,7 +44,8 @@ RULE = (
     "after close, before/after os.replace) as a simulated kill (directory snapshot at the fault) and as an exception that "
     "unwinds, with and without an older entry in place, plus OSError at the same points; (b) every truncation offset of a "
     "stored entry, zero-length, directory in place, stale source, entry of another name, five foreign magic headers with a "
-    "payload that renders differently, trailing garbage; (c) all histories ending in a load, of length <= 4 (quick) / <= 5 "
+    "payload that renders differently, entries written by a copy of the bccache module executed under three other "
+    "interpreter versions, trailing garbage; (c) all histories ending in a load, of length <= 4 (quick) / <= 5 "
     "(thorough; <= 6 for four of the pairs), over {load(env0|env1, a|b), modify(a|b), clear} for 4 equally configured pairs (one with two file-system "
     "loaders serving the same name from different roots) and 10 pairs differing in one compile-relevant option, plus "
     "Hypothesis-generated long histories; (d) MemcachedBytecodeCache over a fake client with per-call fault schedules. "
@@ -528,6 +531,41 @@ def _foreign_magic(variant):
     raise core.HarnessError("magic variant %r" % (variant,))
 
 
+_OTHER_INTERP = {}
+
+
+def _bccache_under(variant):
+    """A second copy of the jinja2.bccache module source, executed while sys.version_info reports another interpreter
+    version (the module computes its header at import time).  Not registered in sys.modules; one copy per process."""
+    import importlib.util
+
+    import jinja2.bccache
+
+    key = (os.getpid(), variant, jinja2.bccache.__file__)
+    if key in _OTHER_INTERP:
+        return _OTHER_INTERP[key]
+    v = sys.version_info
+    if variant == "minor-1":
+        fake = (v[0], v[1] - 1, 0, "final", 0)
+    elif variant == "minor+1":
+        fake = (v[0], v[1] + 1, 0, "final", 0)
+    elif variant == "major+1":
+        fake = (v[0] + 1, 0, 0, "final", 0)
+    else:
+        raise core.HarnessError("interpreter variant %r" % (variant,))
+    spec = importlib.util.spec_from_file_location("jinja2._vt_bccache_%s" % variant.replace("-", "m").replace("+", "p"),
+                                                  jinja2.bccache.__file__)
+    mod = importlib.util.module_from_spec(spec)
+    real = sys.version_info
+    sys.version_info = fake
+    try:
+        spec.loader.exec_module(mod)
+    finally:
+        sys.version_info = real
+    _OTHER_INTERP[key] = mod
+    return mod
+
+
 def _check_damage(case):
     spec, src, dmg = case["env"], case["src"], case["damage"]
     labels = ["damage", "dmg_" + dmg[0]]
@@ -575,7 +613,7 @@ def _check_damage(case):
         elif op == "append":
             with open(pa, "ab") as f:
                 f.write(b"\x00garbage\xff" * dmg[1])
-        elif op in ("foreign_name", "magic"):
+        elif op in ("foreign_name", "magic", "other_interp"):
             _outcome(_mkenv(spec, store, _fs_cache(cache_dir)), "b")
             others = [f for f in _entry_files(cache_dir) if f != files[0]]
             if len(others) != 1:
@@ -589,6 +627,13 @@ def _check_damage(case):
                 raise core.Violation("the stored entry for the second template is not a complete entry")
             if op == "foreign_name":
                 new = other
+            elif op == "other_interp":
+                # the entry the module itself writes under another interpreter version for the *current* source:
+                # same key (file), matching source checksum, code this interpreter must not trust
+                foreign = _bccache_under(dmg[1])
+                bucket = foreign.Bucket(None, "k", pickle.loads(entry[parsed[0]:parsed[1]]))
+                bucket.code = marshal.loads(other[po[1]:])
+                new = bucket.bytecode_to_string()
             else:
                 # what another interpreter / cache format version would have left for the *current* source:
                 # its header, the matching source checksum, a payload this interpreter must not trust
@@ -925,6 +970,7 @@ def crash_cases(tier):
 
 DAMAGE_SPECS = [spec(), spec(autoescape=True, enable_async=True), spec(sandboxed=True, trim_blocks=True), spec("fsB")]
 DAMAGE_SRCS = [T_MAIN, T_CALL, T_SMALL, T_ERR, T_TRANS]
+OTHER_INTERPS = ["minor-1", "minor+1", "major+1"]
 MAGICS = ["py_minor-1", "py_minor+1", "py_major-1", "bc_version-1", "bc_version+1"]
 
 
@@ -940,7 +986,7 @@ def damage_cases(tier):
             for k in _offsets(total, bounds, dense) + [total + 7]:
                 yield {"kind": "damage", "env": sp, "src": src, "damage": ["truncate", k]}
             for d in [["zero"], ["dir"], ["dir_nonempty"], ["stale"], ["foreign_name", True], ["foreign_name", False],
-                      ["append", 1], ["append", 40]] + [["magic", m] for m in MAGICS]:
+                      ["append", 1], ["append", 40]] + [["magic", m] for m in MAGICS] + [["other_interp", m] for m in OTHER_INTERPS]:
                 yield {"kind": "damage", "env": sp, "src": src, "damage": d}
 
 
@@ -1034,7 +1080,7 @@ def run_shard(spec_, ctx):
 
 def floors(total, tier):
     need = ["crash", "damage", "hist", "memc", "point_bytes", "point_replace_before", "point_replace_after", "point_tmp_after",
-            "trunc_in_magic", "trunc_in_checksum", "trunc_in_code", "dmg_magic", "dmg_dir", "dmg_foreign_name",
+            "trunc_in_magic", "trunc_in_checksum", "trunc_in_code", "dmg_magic", "dmg_other_interp", "dmg_dir", "dmg_foreign_name",
             "load_stale_entry", "load_entry_of_other_env", "observed_hit", "observed_miss", "weak_judged", "cfg_equal",
             "get_trunc", "get_raise", "set_raise", "client_error_propagated", "after_crash_hit", "after_crash_miss"]
     missing = [k for k in need if total.labels.get(k, 0) < 10]
